@@ -10,13 +10,13 @@ from props import prooflib as PL
 
 PID = 'C18'
 LEVEL = 'proof'
-LEAN_TARGETS = ['Swiftness.Props.C18', 'Swiftness.Props.C18dyn']
-PROPS_FILES = ['C18', 'C18dyn']
+LEAN_TARGETS = ['Swiftness.Props.C18', 'Swiftness.Props.C18dyn', 'Swiftness.Props.C18dynPipeline']
+PROPS_FILES = ['C18', 'C18dyn', 'C18dynPipeline']
 TRANSLATOR_PARTS = ('consts', 'ast')
-DRV_LAYOUTS = ['recursive', 'dex', 'dynamic']
+DRV_LAYOUTS = ['dex', 'recursive', 'recursive_with_poseidon', 'small', 'starknet', 'starknet_with_keccak', 'dynamic']
 BUILDS = {'quick': [('k160', 'stone5', 'full', 'all_layouts', 'parser'), ('b248', 'stone6', 'full', 'all_layouts', 'parser')], 'thorough': [('k160', 'stone5', 'full', 'all_layouts', 'parser'), ('b248', 'stone6', 'full', 'all_layouts', 'parser')]}
 EXTREME = [0, 1, 2, 15, 16, 17, 48, 49, 64, 65, 255, 1 << 16, 1 << 32, 1 << 40, (1 << 64) - 1, 1 << 64, 1 << 128, (1 << 128) + 1, P - 2, P - 1]
-RULE = ('bases: fixture + shipped recursive/dex proofs (thorough: + all static layouts and the dynamic proof). every vector: emptied, truncated by '
+RULE = ('[dynamic layout, stone6 build: zero-trace forgeries for public inputs with edited column / offset parameters, which reach the DEEP-quotient evaluation; adversarial parameter vectors through check_asserts] bases: fixture + shipped recursive/dex proofs (thorough: + all static layouts and the dynamic proof). every vector: emptied, truncated by '
         '1, truncated to 1, first element dropped (shift), lengthened by 1 and by 100; every numeric scalar at each extreme value '
         '(0,1,2,15..17,48,49,64,65,255,2^16,2^32,2^40,2^64-1,2^64,2^128,2^128+1,P-2,P-1); consistent re-declarations (small traces t=1..12 with '
         'matching FRI/commitment configs, eval domain 2^65..2^87, composition columns 1/3, the column count of every table together with its decommitment length, FRI layer columns); pairs of the above. plus config validation and '
@@ -76,7 +76,7 @@ def cases(rng, tier, feats, drv_ok):
     def add(b, v, kind, pos):
         nonlocal k
         k += 1
-        out.append({'line': b.line(v), 'kind': kind, 'name': b.name, 'pos': pos, 'hxonly': k % (25 if b.layout == 'dynamic' else 9) != 0})
+        out.append({'line': b.line(v), 'kind': kind, 'name': b.name, 'pos': pos, 'hxonly': k % (25 if b.layout == 'dynamic' else 9 if b.layout in ('recursive', 'dex') else 60) != 0})
     for b in bases:
         add(b, b.v, 'base', '-')
         for i, path in b.vectors():
@@ -135,6 +135,34 @@ def cases(rng, tier, feats, drv_ok):
                 try: v = PL.setp(v, i2, p2, x)
                 except IndexError: pass        # the scalar lived in the vector that was just cut
             add(b, v, 'pair', f'{PL.TOK[i1]}+{PL.TOK[i2]}')
+    # DEEP reach for the dynamic layout: a zero-trace forgery (harness forge_zero_from: consistent transcript, mined nonce, zero rows) built for
+    # an EDITED public input gets past the commitment phase and the three table decommitments, so the verifier evaluates the DEEP quotient
+    # with the edited dynamic parameters as column indices / offsets before FRI rejects it.  Nothing on the way may panic.
+    for b in bases:
+        if b.layout != 'dynamic' or not HX: continue
+        from props import C14
+        ix = C14.dyn_meta()['idx']; names = sorted(ix, key=ix.get)
+        I = PL.IDX
+        v0 = PL.setp(b.v, I['cfg.pow_bits'], (), 20)
+        c1, c2 = b.v[I['pi.dynamic_params']][ix['num_columns_first']], b.v[I['pi.dynamic_params']][ix['num_columns_second']]
+        cols = [n for n in names if n.endswith('_column')]
+        picks = cols if tier == 'thorough' else [n for n in cols if rng.chance(1, 4)]
+        specs = [('unedited', v0)]
+        for n in picks:
+            for val in ([c1 - 1, c1, c1 + c2 - 1, c1 + c2, 1 << 32, (1 << 64) - 1] if tier == 'thorough' else [rng.choice([c1 - 1, c1, c1 + c2 - 1, c1 + c2, 1 << 32, (1 << 64) - 1])]):
+                dp = list(b.v[I['pi.dynamic_params']]); dp[ix[n]] = val
+                specs.append((f'{n}={val:#x}', PL.setp(v0, I['pi.dynamic_params'], (), dp)))
+        for n in [x for x in names if x.endswith('_offset') or x.endswith('_suboffset')]:
+            if tier == 'thorough' or rng.chance(1, 12):
+                dp = list(b.v[I['pi.dynamic_params']]); dp[ix[n]] = rng.choice([1, 1 << 16, (1 << 17) - 1, 1 << 17, 1 << 40])
+                specs.append((f'{n}={dp[ix[n]]:#x}', PL.setp(v0, I['pi.dynamic_params'], (), dp)))
+        fo, _ = fw.run_split(lambda ls, **kw: fw.run_hx(HX, ls), ['forge_zero_from dynamic ' + ' '.join(b.line(v).split(' ')[3:]) for _, v in specs])
+        for (nm, v), o in zip(specs, fo):
+            if o.startswith('ok '):
+                k += 1
+                out.append({'line': f'verify dynamic 14 {o[3:]}', 'kind': 'forged-dynamic', 'name': b.name, 'pos': nm, 'hxonly': nm != 'unedited' and k % 25 != 0})
+            elif o.startswith('panic'):
+                out.append({'line': 'forge_zero_from dynamic ' + ' '.join(b.line(v).split(' ')[3:]), 'kind': 'forged-dynamic', 'name': b.name, 'pos': nm + ' (panic while forging, inside stark_commit)', 'hxonly': True})
     # the dynamic layout's autogenerated assertion list alone, on adversarial parameter vectors (no panic: Props/C18dyn; model agreement)
     if 'all_layouts' in feats:
         vals = [0, 1, 2, 3, 4, 8, 16, 64, 256, 1 << 12, 1 << 16, 1 << 20, 1 << 31, 1 << 32, 1 << 63, (1 << 64) - 1]
